@@ -4,6 +4,7 @@ import Driver.Dispatch
 import Driver.FileSink
 import Driver.Sinks
 import Driver.Json
+import Driver.CloudEvents
 open Driver
 
 def main (args : List String) : IO UInt32 := do
@@ -16,4 +17,5 @@ def main (args : List String) : IO UInt32 := do
   | ["filesink"] => loop stdin stdout Driver.FileSink.stepLine {}; return 0
   | ["sinks"] => loop stdin stdout Driver.Sinks.stepLine []; return 0
   | ["json"] => loop stdin stdout Driver.Json.stepLine (); return 0
+  | ["ce"] => loop stdin stdout Driver.CloudEvents.stepLine (); return 0
   | _ => IO.eprintln "usage: evldriver <model>"; return 2
